@@ -127,10 +127,17 @@ def select_cases(pid, spec, tier, seed):
                 for w in itertools.product(sigma, repeat=n_):
                     u.append([ord(ch) for ch in w])
             unis.append(u)
+        # two prefixes x run lengths x tails: the region where trie widening makes the automaton non-deterministic
+        # (defect F14, seeds C01e/C01f need 5-7 such words); used with conversion of repetitions
+        uw = [[ord(ch) for ch in pre + 'b' * k_ + t_] for pre in 'xy' for k_ in (1, 2, 3) for t_ in ('', 'a', 'c', 'ca', 'cc', 'cd')] + [[120], [121]]
         for j in range(nd):
             u = unis[0] if drnd.random() < 0.6 else drnd.choice(unis)
             sub = drnd.sample(u, min(len(u), drnd.randint(4, 8)))
             fl = list(spec.get('force') or [])
+            if 'r' in spec['flags'] and drnd.random() < 0.2:
+                sub = drnd.sample(uw, drnd.randint(5, 8))
+                if 'r' not in fl:
+                    fl.append('r')
             if drnd.random() < 0.5:
                 fl += [f for f in drnd.sample(spec['flags'], min(drnd.randint(1, 2), len(spec['flags']))) if f not in fl]
             if spec.get('need_any') and not any(f in fl for f in spec['need_any']):
@@ -672,6 +679,8 @@ def run_property(pid, tier, seed):
     # correspondence on the stages this property depends on
     stage_diffs = {}
     first_diff = None
+    diff_cases = []
+    diff_out = []
     compared = 0
     oracle_miss = 0
     for c in allc:
@@ -699,6 +708,12 @@ def run_property(pid, tier, seed):
             stage_diffs[s] = stage_diffs.get(s, 0) + 1
             if first_diff is None:
                 first_diff = {'stage': s, 'case': c, 'implementation': a, 'model': b}
+        if diffs:
+            # inputs whose final output differs as well come first: there the language may differ
+            if any(st_ == 'out' for st_, _, _ in e2e):
+                if len(diff_out) < 40: diff_out.append(c)
+            elif len(diff_cases) < 40:
+                diff_cases.append(c)
     if first_diff:
         broken.append('correspondence broken at stage(s) %s (first: stage %s)' % (sorted(stage_diffs), first_diff['stage']))
     res['first_diff'] = first_diff
@@ -790,6 +805,57 @@ def run_property(pid, tier, seed):
         import extra
         unknown += [(c, {'out': None}, fl) for c, fl in extra.python_threshold_probe(res, seed)]
         unknown += [(c, {'out': None}, fl) for c, fl in extra.builder_order_probe(res, seed)]
+    # the correspondence broke but no generated input violates the property: search AROUND the inputs on which
+    # implementation and model differ (they exercise the changed code) — add/remove/extend words, same options
+    diff_cases = (diff_out + diff_cases)[:40]
+    if diff_cases and not unknown:
+        lrnd = random.Random(seed + 555)
+        muts = []
+        for c in diff_cases:
+            alpha_c = sorted(set(x for t in c['tcs'] for x in t)) or [97]
+            for _ in range(150 if tier == 'quick' else 600):
+                W = [list(t) for t in c['tcs']]
+                for _m in range(lrnd.randint(1, 3)):
+                    op = lrnd.random()
+                    w = list(lrnd.choice(W)) if W else []
+                    if op < 0.25:
+                        W.append(w + [lrnd.choice(alpha_c)])
+                    elif op < 0.4 and w:
+                        W.append(w[:-1])
+                    elif op < 0.55 and w:
+                        k_ = lrnd.randrange(len(w)); W.append(w[:k_] + [w[k_]] + w[k_:])
+                    elif op < 0.7 and len(W) > 1:
+                        w2 = lrnd.choice(W); W.append(w[:lrnd.randint(0, len(w))] + w2[lrnd.randint(0, len(w2)):])
+                    elif op < 0.8 and W:
+                        W.append(w + list(lrnd.choice(W)))
+                    elif op < 0.9 and w:
+                        k_ = lrnd.randrange(len(w)); W.append(w[:k_] + [lrnd.choice(alpha_c)] + w[k_ + 1:])
+                    elif len(W) > 2:
+                        W.pop(lrnd.randrange(len(W)))
+                muts.append({'tcs': W, 'f': c['f'], 'mr': c.get('mr', 1), 'ms': c.get('ms', 1), 'alpha': 'local-search',
+                             'lang': bool(spec.get('lang')), 'lang_anchor': pid == 'C08'})
+        for i_, m_ in enumerate(muts):
+            m_['id'] = i_
+        impl2 = runner.run_impl(muts)
+        model2 = runner.run_model(muts, impl2) if st['driver_ok'] else {}
+        nfound = 0
+        for m_ in muts:
+            r2 = impl2.get(m_['id'])
+            if r2 is None or 'harness_panic' in r2:
+                continue
+            mm2 = model2.get(m_['id'])
+            v2 = r2.get('verdicts', {})
+            if mm2 is not None and 'no_merge' in mm2 and isinstance(v2, dict):
+                v2['k1_merge'] = (mm2['no_merge'] == '0')
+            for fl in fails_of(m_, r2):
+                k = known_for(pid, m_, r2, fl, st)
+                if k == 'K2' and mm2 is not None and r2.get('out') is not None and mm2.get('out') not in (None, '!ERR') \
+                        and mm2.get('out') != runner.ser_cps(r2['out']) and not k2_on_model(mm2['out'], fl.get('t')):
+                    k = None
+                if not k:
+                    unknown.append((m_, r2, fl)); nfound += 1
+            impl[('ls', m_['id'])] = r2
+        res['stats']['local_search'] = {'around_cases': len(diff_cases), 'mutants': len(muts), 'failing_inputs_found': nfound}
     res['stats'].update({'undecided_lang': undecided, 'engine_inconsistencies': incons, 'known_class_failures': known_counts})
     # distribution
     keys = set(); nontriv = set(); flagc = {}; alph = {}
@@ -899,7 +965,8 @@ def finish(pid, res):
         'rule': 'cases = corpus + generator (lib/cases.py, structured families x flag lattice); distinct by (set of test cases, flags, thresholds); non-trivial = at least two distinct test cases or at least one option set',
         'samples': res.get('samples', [])[:5] + [{'theorem': n, 'statement': thm[n]['statement'][:400], 'assumptions': thm[n]['assumptions']} for n in names[:6]],
         'theorems': {n: thm[n] for n in names},
-        'correspondence': {'cases_compared': stats.get('compared', 0), 'stages': spec.get('stages'), 'stage_disagreements': stats.get('stage_diffs', {})},
+        'correspondence': {'cases_compared': stats.get('compared', 0), 'stages': spec.get('stages'), 'stage_disagreements': stats.get('stage_diffs', {}),
+                           'local_search_after_break': stats.get('local_search')},
         'oracle': {'unknown_failures': res.get('unknown_failures', 0), 'known_class_failures': stats.get('known_class_failures', {}),
                    'undecided_language_queries': stats.get('undecided_lang', 0), 'engine_inconsistencies': stats.get('engine_inconsistencies', 0)},
         'distribution': {k: stats.get(k) for k in ('flags', 'alphabets', 'selfcheck', 'sizes', 'corpus', 'distinct')},
